@@ -135,13 +135,14 @@ hc_prop("C20",
 
 hc_prop("C04",
     lambda tier: [dict(family="frag-len", n=T(tier, 5795 + 400, 5795 + 30000), params={"prop": "C04"}, scalable=False),
+                  dict(family="frag-max", n=T(tier, 16, 400), params={"prop": "C04"}, scalable=False),
                   hc("frag", 1500, 60000, tier, "C04", frag_packets=T(tier, 40, 120)),
                   hc("frag-twin", 1000, 40000, tier, "C04"),
                   dict(family="frag-rx", n=T(tier, 200, 8000), params={"batch": 10, "packets": T(tier, 60, 120)})],
-    GEN + "frag-len: ONE packet per scenario, every length 0..=5794 exhaustively (then sampled lengths up to 1 MB), fragments duplicated / reordered / partly lost and resent. frag: multi-fragment heavy mixes with rates that cut packets across flushes. frag-twin: same scenario twice, second run with datagrams appended whose header disagrees with the genuine fragments of the same packet (forward link ideal so the first fragment seen is genuine). non-trivial: multi-fragment packet delivered after >= 1 duplicate / delayed / lost fragment (frag-len: delivered), twin: >= 1 conflicting datagram injected. frag-rx: the harness is the sender: its own packets, cut with the reference codec, are handed to a real receiving HalfConnection one fragment per frame in any order (shuffled / reversed / in order, 1..64 packets interleaved, windows 4..4096, ids wrapping 2^20), repeated also after delivery and behind the window, with forged fragments for packets under assembly whose header disagrees with the first genuine one (fewer / more fragments, other channel, other leads; full-size or short) aimed at slots not yet received; non-trivial = a packet that had forged fragments aimed at a missing slot was delivered.",
+    GEN + "frag-len: ONE packet per scenario, every length 0..=5794 exhaustively (then sampled lengths up to 1 MB), fragments duplicated / reordered / partly lost and resent. frag-max: the same with ONE packet from the top of the legal range: MAX_PACKET_SIZE = 65536 x 1448 = 94 896 128 bytes (last fragment id 0xFFFF) and MAX-1, MAX-1447, MAX-1448, MAX-1449, 65535 and 65534 and 32768 (+-1 byte) and 16384 and 4097 fragments first, then sampled lengths of 5..95 MB, over 20 MB/s..4 GB/s links. frag: multi-fragment heavy mixes with rates that cut packets across flushes. frag-twin: same scenario twice, second run with datagrams appended whose header disagrees with the genuine fragments of the same packet (forward link ideal so the first fragment seen is genuine). non-trivial: multi-fragment packet delivered after >= 1 duplicate / delayed / lost fragment (frag-len: delivered), twin: >= 1 conflicting datagram injected. frag-rx: the harness is the sender: its own packets, cut with the reference codec, are handed to a real receiving HalfConnection one fragment per frame in any order (shuffled / reversed / in order, 1..64 packets interleaved, windows 4..4096, ids wrapping 2^20), repeated also after delivery and behind the window, with forged fragments for packets under assembly whose header disagrees with the first genuine one (fewer / more fragments, other channel, other leads; full-size or short) aimed at slots not yet received; non-trivial = a packet that had forged fragments aimed at a missing slot was delivered.",
     "Wire monitor: no emitted frame > 1472 bytes; every datagram equals the right slice of its packet; byte-exact delivery (C01 oracle); single packets delivered exactly once; twin-run equality of deliveries under conflicting fragments; a stall with a backlog in these families counts as packets not arriving; synthetic-sender sessions: byte-identical, at-most-once, per-channel-ordered delivery and exactly-once for the ordered chain under arbitrary fragment arrival orders and forged disagreeing fragments. Length sweep is exhaustive for 0..=4*1448+2, everything else sampled.",
     "wire-slicing monitor + exhaustive length sweep + twin-run differential",
-    dict(quick=1500, thorough=20000), require=["single_packet_multifrag", "conflicting_datagrams_injected", "delivered_multifrag", "forged_into_slot_not_yet_received", "forged_fewer_fragments", "repeated_after_delivery"],
+    dict(quick=1500, thorough=20000), require=["single_packet_multifrag", "single_packet_max_packet_size", "conflicting_datagrams_injected", "delivered_multifrag", "forged_into_slot_not_yet_received", "forged_fewer_fragments", "repeated_after_delivery"],
     also=["C01:delivered-altered", "C01:delivered-unknown", "C01:delivered-twice", "C02:stall", "C11:stall", "C02:reliable-not-delivered-at-quiescence"])
 
 hc_prop("C06",
